@@ -373,6 +373,12 @@ class Executor:
             if isinstance(v, Vec) and isinstance(s, ast.Slice) and s.upper is None and s.step is None \
                     and isinstance(s.lower, ast.Constant) and s.lower.value == 1:
                 return Vec.base(f"(tl {materialise(v)})", v.ety)
+            if isinstance(v, Vec) and isinstance(s, ast.Slice) and s.lower is None and s.step is None and s.upper is not None \
+                    and not isinstance(s.upper, (ast.UnaryOp, ast.Constant)):
+                up = self.expr(s.upper, sc)
+                if isinstance(up, Sc) and up.ty == "Z":
+                    return Vec.base(f"(firstn (Z.to_nat {up.t}) {materialise(v)})", v.ety)
+                fail(n, "unsupported slice bound")
             if isinstance(v, Vec) and isinstance(s, ast.Slice) and s.lower is None and s.step is None \
                     and isinstance(s.upper, ast.UnaryOp) and isinstance(s.upper.op, ast.USub) \
                     and isinstance(s.upper.operand, ast.Constant) and s.upper.operand.value == 1:
@@ -556,6 +562,11 @@ class Executor:
             return lift(cast, [recv], n)
         if name in ("sum", "mean") and isinstance(recv, Vec) and not args:
             return reduce_vec(name, recv, n)
+        if name == "reshape" and isinstance(recv, Vec) and len(args) == 2 and ast.unparse(args[0]) == "-1":
+            b = self.expr(args[1], sc)
+            if isinstance(b, Sc) and b.ty == "Z":
+                return Sc("O", f"(kreshape (Z.to_nat {b.t}) {materialise(recv)})")
+            fail(n, "unsupported reshape")
         fail(n, f"unsupported method {name}")
 
     # ---- statements
